@@ -266,6 +266,16 @@ def gen_cases(rng, tier):
     # more than 64 consecutive ids in use: the probe budget runs out although free ids exist
     cases.append({'kind': 'I', 'limit': limit, 'last': 0, 'live': list(range(1, 70))})
     cases.append({'kind': 'I', 'limit': limit, 'last': 5, 'live': list(range(6, 70))})
+  # two streams: the device closes one of them while the OTHER one is reading (the CLSE is answered by the demultiplexer
+  # and parked on the closed stream's queue); its owner then closes / reads / closes it: exactly one CLSE per stream
+  for last in (0, 3):
+    a = (last % 8) + 1
+    b = a + 1 if a + 1 < 8 else 1
+    for tail in ([['X', b]], [['X', b], ['X', b]], [['R', b, 0]], [['R', b, 0], ['X', b]], [['X', b], ['R', b, 0]], [['X', a], ['X', b]]):
+      for extra in ([], [['W', 20, a, 1]]):
+        cases.append({'kind': 'S', 'limit': 8, 'last': last,
+                      'ops': [['O'], ['O'], ['R', a, 0]] + tail,
+                      'dev': [['K', 20, a], ['K', 30, b], ['Z', 30, b]] + extra + [['W', 20, a, 2]]})
   # stream life cycle
   nS = 500 if tier == 'quick' else 6000
   for i in range(nS):
